@@ -375,7 +375,8 @@ def run_impl(binary, lines, timeout=1800, env=None, extra_args=()):
                            timeout=timeout, env=env)
     except subprocess.TimeoutExpired:
         shutil.rmtree(td, ignore_errors=True)
-        raise ImplCrash("implementation harness did not finish %d case(s) within %d s (first: %s)" % (len(lines), timeout, lines[0][:300]))
+        raise ImplTimeout("implementation harness did not finish %d case(s) within %d s (first: %s)" % (len(lines), timeout, lines[0][:300]),
+                          [binary], timeout)
     if p.returncode != 0:
         raise ImplCrash(p.stdout[-3000:])
     out = open(of).read().split("\n")
@@ -389,6 +390,18 @@ def run_impl(binary, lines, timeout=1800, env=None, extra_args=()):
 
 class ImplCrash(Exception):
     pass
+
+
+class ImplTimeout(ImplCrash, subprocess.TimeoutExpired):
+    """the harness process did not finish in time: caught both by handlers of ImplCrash and of TimeoutExpired"""
+
+    def __init__(self, msg, cmd, timeout):
+        ImplCrash.__init__(self, msg)
+        self.cmd, self.timeout, self.output, self.stderr = cmd, timeout, None, None
+        self.msg = msg
+
+    def __str__(self):
+        return self.msg
 
 
 def run_impl_watch(binary, lines, stall=20, env=None, marker="NOLOG", max_culprits=4):
